@@ -11,7 +11,7 @@ FEAT=$(grep -ho -- '--features [a-z,-]*' $SEED/notes.md | head -1); FEAT=${FEAT:
 DEMOCRATE=cedar-policy; grep -q 'cedar-policy-core/tests' $SEED/notes.md && ! grep -q 'cedar-policy/tests' $SEED/notes.md && DEMOCRATE=cedar-policy-core
 grep -q 'cedar-policy-symcc/tests' $SEED/notes.md && DEMOCRATE=cedar-policy-symcc
 echo "demo crate: $DEMOCRATE features: $FEAT" >> $LOG
-cp $SEED/demo.rs $WT/$DEMOCRATE/tests/seed_demo.rs
+mkdir -p $WT/$DEMOCRATE/tests; cp $SEED/demo.rs $WT/$DEMOCRATE/tests/seed_demo.rs
 echo "== demo WITHOUT patch" >> $LOG
 cargo test --offline -q -p $DEMOCRATE $FEAT --test seed_demo -j 8 >> $LOG 2>&1; R0=$?
 echo "exit=$R0" >> $LOG
